@@ -133,6 +133,15 @@ impl Ctx {
         }
     }
 
+    /// Trace line that wants the simulated time.
+    #[inline]
+    pub fn trt<F: FnOnce(u64) -> String>(&mut self, f: F) {
+        if self.tracing {
+            let now = self.now_ns;
+            self.tr(|| f(now));
+        }
+    }
+
     #[inline]
     pub fn probe(&mut self, name: &'static str) {
         *self.stats.probes.entry(name).or_insert(0) += 1;
